@@ -311,7 +311,7 @@ pub fn run(cx: &Cx) -> Report {
         "mod is the truncated remainder (sign of the dividend), as in Rust/num-rational and C09's wording".into(),
         "bit operators on negative integers use two's complement".into(),
         "0^0 and negative shift counts are unspecified by the manual: {error, the natural value} both accepted".into(),
-        "unary sign directly under ^ and nested ^ are always written with explicit parentheses (manual silent)".into(),
+        "a unary sign directly under ^ is always written with explicit parentheses (the manual is silent and rink reads -2^2 as 4); chained ^ is taken to be right-associative (a^b^c = a^(b^c)), the universal convention".into(),
         "num-bigint integer multiplication/division trusted for the reference; the modular fingerprints are independent of it".into(),
     ];
     let allow_neg = !cx.is_known("hang:negative-shift-count");
